@@ -114,6 +114,8 @@ func runC08(c *Ctx) {
 	c08Reposition(c)
 	c08Position(c)
 	c08ErrExit(c)
+	// skipping loops advance what their condition tests
+	runLoopCondRule(c, "C08.loopcond", func(fn *ssa.Function) bool { return inModule(fn) }, 300)
 	// the cursors of the resettable readers are re-established by their Reset
 	ci := newChainIndex(c.P)
 	closeWhy := "Close ends the life of the reader; Reset is not expected to reopen it"
